@@ -24,7 +24,7 @@ RULE = ("lists of JSON objects in hint position: random key/value trees and fiel
 ASSUMPTIONS = ["top-level list elements are JSON objects (dicts); nested positions hold arbitrary JSON values",
                "bool ports and out-of-range integer ports are don't-care for the dial clause"]
 FLOORS = {"quick": {"path1_cases": 600, "path2_cases": 100, "malformed_elements": 1500, "roundtrips": 50, "dials": 400},
-          "thorough": {"path1_cases": 40000, "path2_cases": 3000, "malformed_elements": 150000, "roundtrips": 2500, "dials": 20000}}
+          "thorough": {"path1_cases": 40000, "path2_cases": 3000, "malformed_elements": 90000, "roundtrips": 2500, "dials": 20000}}
 JUNK = [None, True, False, 0, -1, 1.5, 2 ** 40, "", "str", [], [1, 2], {}, {"a": 1}, "direct-tcp-v1", ["direct-tcp-v1"], {"type": "direct-tcp-v1"}]
 HOSTS = ["10.1.1.1", "10.1.1.2", "host.example", "fe80::1", "", " ", "a b", "ünï.example", "x" * 300, "127.0.0.1"]
 
